@@ -11,6 +11,14 @@ CHECKS = {
             "Generated search: arbitrary arity-correct presentation MathML (incl. degenerate children, wrappers, mfenced, mmultiscripts, tables) x separator locales; the visible character sequence of the input must equal that of the MathML returned by set_mathml after a character-only normalisation. Finds silent loss/invention of content; no claim beyond the generator bounds.",
             "Trusts sxd-document as XML parser, the NFKC table from Python's unicodedata for styled letters, and the normalisation N of DESIGN.md C01. Known findings are excluded by input-trigger signature and counted.",
             "DESIGN.md 3/C01"),
+    "C02": ("property-based testing (proptest generators + shrinking), validity predicate over the returned MathML parsed by an independent XML parser",
+            "Generated search over accepted inputs (G-struct with planted special-character attributes, G-wild mutants, raw strings) and over get_navigation_mathml after random moves; the returned string must parse and satisfy the canonical-form predicate of the statement (arities, paired multiscripts, no empty token, no short mrow without intent, wrappers gone, attribute escaping).",
+            "Trusts sxd-document as the independent parser. Known findings are excluded by input-trigger signature (shared with C01) and counted.",
+            "DESIGN.md 3/C02"),
+    "C08": ("property-based testing over API call histories (stateful, model-based: fresh-session reference model), process isolation for aborts",
+            "Generated histories over all 16 public entry points with valid, wrong-kind, hostile and stale arguments in any order; every call must return (panic hook + catch_unwind; aborts and hangs observed through worker processes), and after errors a probe expression must give exactly the outputs of a fresh session in which the accepted state-changing calls were replayed. A separate nesting-depth class runs in child processes.",
+            "Recovery is asserted only for sessions that began with a successful set_rules_dir (documented precondition); panics are reported for every order. Debug assertions and overflow checks are on. Hangs are counted, not reported as violations unless they fall in a known input class.",
+            "DESIGN.md 3/C08"),
 }
 
 NOT_YET = "check not built yet in this round (machinery in progress; see DESIGN.md section 7 build order)"
